@@ -8,6 +8,7 @@ import (
 	"fmt"
 	"io"
 	"net"
+	"os"
 	"time"
 
 	"verif/vrt"
@@ -44,8 +45,10 @@ type Conn struct {
 	// closed (what crypto/tls does when close_notify arrives in the segment of the last record; io.Reader
 	// allows it for any reader).
 	EOFWithData bool
-	Log         *[]Record
-	Writes      int
+	// read and write deadlines, on the virtual clock (zero = none)
+	rdl, wdl time.Time
+	Log      *[]Record
+	Writes   int
 }
 
 type addr string
@@ -71,12 +74,16 @@ func (c *Conn) Read(p []byte) (int, error) {
 		return 0, nil
 	}
 	if !vrt.Block("read "+c.Name, func() bool {
-		return len(c.in.buf) > 0 || c.in.wclosed || c.in.reset || c.closed
+		return len(c.in.buf) > 0 || c.in.wclosed || c.in.reset || c.closed || expired(c.rdl)
 	}) {
 		return 0, ErrClosed
 	}
 	if c.closed {
 		return 0, &net.OpError{Op: "read", Net: "vnet", Err: ErrClosed}
+	}
+	if len(c.in.buf) == 0 && !c.in.wclosed && !c.in.reset && expired(c.rdl) {
+		vrt.Tracef("read %s: deadline exceeded", c.Name)
+		return 0, &net.OpError{Op: "read", Net: "vnet", Err: os.ErrDeadlineExceeded}
 	}
 	if len(c.in.buf) > 0 {
 		n := copy(p, c.in.buf)
@@ -104,6 +111,9 @@ func (c *Conn) Write(p []byte) (int, error) {
 	c.Writes++
 	if c.closed {
 		return 0, &net.OpError{Op: "write", Net: "vnet", Err: ErrClosed}
+	}
+	if expired(c.wdl) {
+		return 0, &net.OpError{Op: "write", Net: "vnet", Err: os.ErrDeadlineExceeded}
 	}
 	if c.WriteFault != nil {
 		if n, err := c.WriteFault(c, p); n >= 0 || err != nil {
@@ -172,14 +182,38 @@ func (c *Conn) CloseNow() {
 	c.out.wclosed = true
 }
 
-func (c *Conn) IsClosed() bool                     { return c.closed }
-func (c *Conn) PeerClosed() bool                   { return c.peer.closed }
-func (c *Conn) Buffered() int                      { return len(c.in.buf) }
-func (c *Conn) LocalAddr() net.Addr                { return addr(c.Name) }
-func (c *Conn) RemoteAddr() net.Addr               { return addr(c.peer.Name) }
-func (c *Conn) SetDeadline(t time.Time) error      { return nil }
-func (c *Conn) SetReadDeadline(t time.Time) error  { return nil }
-func (c *Conn) SetWriteDeadline(t time.Time) error { return nil }
+func (c *Conn) IsClosed() bool       { return c.closed }
+func (c *Conn) PeerClosed() bool     { return c.peer.closed }
+func (c *Conn) Buffered() int        { return len(c.in.buf) }
+func (c *Conn) LocalAddr() net.Addr  { return addr(c.Name) }
+func (c *Conn) RemoteAddr() net.Addr { return addr(c.peer.Name) }
+
+// Deadlines run on the virtual clock. A read that is blocked when its deadline passes returns
+// os.ErrDeadlineExceeded (a net.Error with Timeout() true), as a real connection does; writes never block
+// here, so a write deadline only matters if it has already passed when Write is called.
+func (c *Conn) SetDeadline(t time.Time) error {
+	c.SetReadDeadline(t)
+	return c.SetWriteDeadline(t)
+}
+
+func (c *Conn) SetReadDeadline(t time.Time) error {
+	c.rdl = t
+	if !t.IsZero() {
+		if d := vrt.Until(t); d > 0 {
+			// a timer that does nothing: it makes the virtual clock stop at the deadline, where the blocked
+			// read's condition is evaluated again
+			vrt.AfterFunc(d, func() {})
+		}
+	}
+	return nil
+}
+
+func (c *Conn) SetWriteDeadline(t time.Time) error {
+	c.wdl = t
+	return nil
+}
+
+func expired(t time.Time) bool { return !t.IsZero() && !vrt.Now().Before(t) }
 
 // ---------------------------------------------------------------------------
 
